@@ -31,7 +31,7 @@ RULE = (
     "one evaluation = one batch (program, dataset, options): all-samples run, every solo run, permuted / subset runs, pools run and physically merged run in one interpreter; "
     "distinct_nontrivial = distinct (program, dataset seed, run kind, sample set / order, interference pattern) runs whose sample columns were compared with the solo columns"
 )
-FAULT_KEYS = ["fit_interference", "prior_work", "permuted_runs", "subset_runs", "solo_runs", "pool_runs", "merged_runs", "multi_core_runs", "sample_in_two_pools"]
+FAULT_KEYS = ["inbreeding_file", "fit_interference", "prior_work", "permuted_runs", "subset_runs", "solo_runs", "pool_runs", "merged_runs", "multi_core_runs", "sample_in_two_pools"]
 PROBE_KEYS = ["exact_tie_skipped", "gl_values_compared", "pool_file_interleaved", "columns_compared", "records_compared_pool_vs_merged", "unknown_alleles_named_by_others", "alt_renumbered", "refmasked_solo_only",
               "programs_assemble", "programs_call", "programs_call_exact", "sample_in_two_pools", "fits_observed"]
 OPTIONAL_PROBES = {"quick": ("alt_renumbered", "refmasked_solo_only", "exact_tie_skipped"), "thorough": ()}
@@ -70,6 +70,7 @@ def gen_config(rng, tier, index=0):
         "cores": rng.choice([1, 1, 1, 2, 3]),
         "threshold": rng.choice([None, None, 0.05, 0.5]),
         "temperatures": rng.choice([None, None, [0.3, 1.0]]),
+        "inbreeding": rng.choice([None, None, "const", "file", "file"]),
     }
 
 
@@ -93,16 +94,32 @@ class Batch(scn_c08.Batch):
                 f.write("%s\t%d\n" % (k, v))
         return p
 
-    def argv10(self, program, ds, bam_list, ploidy_file, hapvcf=None, pool_file=None, cores=1):
+    def inbreeding_file(self, names, values):
+        """One file for the whole batch (a superset of any run's samples), lines in tape-shuffled order."""
+        lines = [(n, values[n]) for n in names]
+        for i in range(len(lines) - 1, 0, -1):
+            j = self.ctx.tape.int(0, i)
+            lines[i], lines[j] = lines[j], lines[i]
+        p = self.path(".inbreeding")
+        with open(p, "w") as f:
+            for n, v in lines:
+                f.write("%s\t%s\n" % (n, v))
+        return p
+
+    def argv10(self, program, ds, bam_list, ploidy_file, hapvcf=None, pool_file=None, cores=1, inbreeding=None):
         cfg = self.cfg
         a = ["mchap", program]
+        if inbreeding is not None:
+            a_inb = ["--inbreeding", inbreeding]
+        else:
+            a_inb = []
         if program == "assemble":
             a += ["--targets", ds["bed"], "--variants", ds["variants"], "--reference", ds["fasta"]]
             if cfg["threshold"] is not None:
                 a += ["--haplotype-posterior-threshold", str(cfg["threshold"])]
         else:
             a += ["--haplotypes", hapvcf]
-        a += ["--bam", bam_list, "--ploidy", ploidy_file]
+        a += ["--bam", bam_list, "--ploidy", ploidy_file] + a_inb
         if pool_file:
             a += ["--sample-pool", pool_file]
         rep = sorted(set(cfg["report"]))
@@ -251,9 +268,18 @@ def run_batch(ctx, b):
 
     saved = install_interference(ctx, m, cfg["interference"])
     try:
-        def run(sample_order, bams=None, pf=None, pool_file=None, cores=1, names=None):
+        inb_values = {s: ["0.0", "0.1", "0.3", "0.05"][ctx.tape.int(0, 3)] for s in samples}
+        inb_all = None
+        if cfg.get("inbreeding") == "const":
+            inb_all = "0.2"
+        elif cfg.get("inbreeding") == "file":
+            inb_all = b.inbreeding_file(samples, inb_values)
+            ctx.counters.inc("inbreeding_file")
+
+        def run(sample_order, bams=None, pf=None, pool_file=None, cores=1, names=None, inb="default"):
             lst = b.bam_list(ds, sample_order, bams)
-            argv = b.argv10(program, ds, lst, pf or pf_all, hapvcf=hv, pool_file=pool_file, cores=cores)
+            argv = b.argv10(program, ds, lst, pf or pf_all, hapvcf=hv, pool_file=pool_file, cores=cores,
+                            inbreeding=inb_all if inb == "default" else inb)
             r = b.run(program, argv, day, seed_rng=True)
             if r["error"] is not None:
                 return None, r
@@ -336,12 +362,17 @@ def run_batch(ctx, b):
             pool_names = list(seen_order)
             if any(sum(1 for mem in pools.values() if s in mem) > 1 for s in samples):
                 ctx.counters.inc("sample_in_two_pools")
-            prec, r = run(samples, pf=pf_pool, pool_file=pool_file, names=pool_names)
+            inb_pool = None
+            if cfg.get("inbreeding") == "const":
+                inb_pool = "0.2"
+            elif cfg.get("inbreeding") == "file":
+                inb_pool = b.inbreeding_file(pool_names, {p: ["0.0", "0.1", "0.3"][ctx.tape.int(0, 2)] for p in pool_names})
+            prec, r = run(samples, pf=pf_pool, pool_file=pool_file, names=pool_names, inb=inb_pool)
             ctx.counters.inc("pool_runs")
             if prec is None:
                 raise Violation("pool_run_failed", "pooled run fails: %r" % (r["error"],), step=ctx.step)
             merged = merge_bams(b, m, ds, pools)
-            mrec, r = run(pool_names, bams=merged, pf=pf_pool)
+            mrec, r = run(pool_names, bams=merged, pf=pf_pool, inb=inb_pool)
             ctx.counters.inc("merged_runs")
             if mrec is None:
                 raise Violation("merged_run_failed", "run on physically merged BAMs fails: %r" % (r["error"],), step=ctx.step)
@@ -490,8 +521,8 @@ def sut_exception_is_violation(e, ctx):
 
 def shrink_candidates(cfg, violation):
     out = []
-    for k, v in (("interference", None), ("pools", False), ("subset", False), ("n_perm", 1), ("cores", 1), ("chains", 1), ("report", []), ("threshold", None)):
-        if cfg[k] != v:
+    for k, v in (("inbreeding", None), ("interference", None), ("pools", False), ("subset", False), ("n_perm", 1), ("cores", 1), ("chains", 1), ("report", []), ("threshold", None)):
+        if cfg.get(k) != v:
             out.append(dict(cfg, **{k: v}))
     if cfg["dataset"] != "simple":
         out.append(dict(cfg, dataset="simple"))
